@@ -511,44 +511,46 @@ def parseArgs : Nat → List Tok → List Expr → List Keyword → Bool → PR 
   | 0, _, _, _, _ => none
   | _ + 1, .op .rpar :: r, as, ks, _ => some ((as, ks), r)
   | f + 1, ts, as, ks, dstar =>
-    let arg : Option (List Expr × List Keyword × Bool × List Tok) :=
-      match ts with
-      | .name n :: .op .assign :: r =>
-        (match parseTest f r with
-         | some (v, r') =>
-           if ks.any (fun | .mk (some m) _ => m == n | _ => false) then none
-           else some (as, ks ++ [.mk (some n) v], dstar, r')
-         | none => none)
-      | .op .star :: r =>
-        (match parseTest f r with
-         | some (v, r') => if dstar then none else some (as ++ [.starred v], ks, dstar, r')
-         | none => none)
-      | .op .dstar :: r =>
-        (match parseTest f r with
-         | some (v, r') => some (as, ks ++ [.mk none v], true, r')
-         | none => none)
-      | _ =>
-        (match parseNamedTest f ts with
-         | some (e, r) =>
-           let res : Option (Expr × List Tok) :=
-             if atCompFor r then
-               (match parseCompFor f r with
-                | some (gs, r') => some (.genExp e gs, r')
-                | none => none)
-             else some (e, r)
-           (match res with
-            | some (e', r') =>
-              if !ks.isEmpty then none else if dstar then none
-              else some (as ++ [e'], ks, dstar, r')
-            | none => none)
-         | none => none)
-    match arg with
+    match parseArg f ts as ks dstar with
     | none => none
     | some (as', ks', dstar', r) =>
       match r with
       | .op .comma :: r2 => parseArgs f r2 as' ks' dstar'
       | .op .rpar :: r2 => some ((as', ks'), r2)
       | _ => none
+termination_by structural f => f
+
+/-- one `FunctionArgument`, added to the arguments collected so far (`parse_args` checks included) -/
+def parseArg : Nat → List Tok → List Expr → List Keyword → Bool →
+    Option (List Expr × List Keyword × Bool × List Tok)
+  | 0, _, _, _, _ => none
+  | f + 1, .name n :: .op .assign :: r, as, ks, dstar =>
+    (match parseTest f r with
+     | some (v, r') =>
+       if ks.any (fun | .mk (some m) _ => m == n | _ => false) then none
+       else some (as, ks ++ [.mk (some n) v], dstar, r')
+     | none => none)
+  | f + 1, .op .star :: r, as, ks, dstar =>
+    (match parseTest f r with
+     | some (v, r') => if dstar then none else some (as ++ [.starred v], ks, dstar, r')
+     | none => none)
+  | f + 1, .op .dstar :: r, as, ks, _ =>
+    (match parseTest f r with
+     | some (v, r') => some (as, ks ++ [.mk none v], true, r')
+     | none => none)
+  | f + 1, ts, as, ks, dstar =>
+    (match parseNamedTest f ts with
+     | some (e, r) =>
+       if atCompFor r then
+         (match parseCompFor f r with
+          | some (gs, r') =>
+            if !ks.isEmpty then none else if dstar then none
+            else some (as ++ [.genExp e gs], ks, dstar, r')
+          | none => none)
+       else
+         if !ks.isEmpty then none else if dstar then none
+         else some (as ++ [e], ks, dstar, r)
+     | none => none)
 termination_by structural f => f
 
 /-- `SubscriptList "]"` -/
@@ -703,12 +705,7 @@ def parseBraceAtom : Nat → List Tok → PR Expr
         | none => none)
      | none => none)
   | f + 1, r =>
-    let first : Option (Expr × Bool × List Tok) :=      -- (element, may be a dict key, rest)
-      match r with
-      | .op .star :: _ => (parseStarOrNamed f r).map (fun (e, r') => (e, false, r'))
-      | .name _ :: .op .walrus :: _ => (parseNamedTest f r).map (fun (e, r') => (e, false, r'))
-      | _ => (parseTest f r).map (fun (e, r') => (e, true, r'))
-    (match first with
+    (match parseBraceFirst f r with
      | some (k, true, .op .colon :: r1) =>
        (match parseTest f r1 with
         | some (v, r2) =>
@@ -731,6 +728,23 @@ def parseBraceAtom : Nat → List Tok → PR Expr
          (match parseElems f .rbrace r1 with
           | some ((es, _), r2) => some (.set (e :: es), r2)
           | none => none)
+     | none => none)
+termination_by structural f => f
+
+/-- the first element after `{`: (element, whether it may be a dict key, rest) -/
+def parseBraceFirst : Nat → List Tok → Option (Expr × Bool × List Tok)
+  | 0, _ => none
+  | f + 1, .op .star :: r =>
+    (match parseStarOrNamed f (.op .star :: r) with
+     | some (e, r') => some (e, false, r')
+     | none => none)
+  | f + 1, .name n :: .op .walrus :: r =>
+    (match parseNamedTest f (.name n :: .op .walrus :: r) with
+     | some (e, r') => some (e, false, r')
+     | none => none)
+  | f + 1, ts =>
+    (match parseTest f ts with
+     | some (e, r') => some (e, true, r')
      | none => none)
 termination_by structural f => f
 
